@@ -55,7 +55,7 @@ let () =
   let lineno = ref 0 and samples = ref 0 in
   let st_inplace = ref 0 and st_grow = ref 0 and st_shift = ref 0 and st_algebra = ref 0 in
   let st_pow = ref 0 and st_parts = ref 0 and st_maxsize = ref 0 and st_maxpow = ref 0 and st_maxparts = ref 0 in
-  let st_free = ref 0 and st_rev = ref 0 and st_mag = ref 0 and st_alias_checks = ref 0 and st_snap_objs = ref 0 in
+  let st_free = ref 0 and st_rev = ref 0 and st_mag = ref 0 and st_mixed = ref 0 and st_sos = ref 0 and st_alias_checks = ref 0 and st_snap_objs = ref 0 in
   let by_kind = Hashtbl.create 3 in
   let opmix = Hashtbl.create 32 in
   (try
@@ -71,8 +71,12 @@ let () =
         if dir = "mag" || dir = "mag3" || dir = "rmag" then incr st_mag;
         if not det then incr st_free;
         if rev then incr st_rev;
-        (* the comparator of the sorted sets; the model only ever looks at the sign of its result *)
-        let cmp = (match dir with "rev" -> cmpZrev | "mag" -> cmpZmag | "mag3" -> cmpZmag3 | "rmag" -> cmpZrmag | _ -> cmpZ) in
+        (* comparators of the sorted sets, by index (each sorted set carries its own; [new o] takes the
+           header's, [new o:<dir>] an explicit one); the model only ever looks at the sign of a result *)
+        let dir_index d = (match d with "rev" -> 1 | "mag" -> 2 | "mag3" -> 3 | "rmag" -> 4 | _ -> 0) in
+        let cmp = cmpsZ in
+        let is_sorted k = (match k with Sorted _ -> true | _ -> false) in
+        let cmp_of k = (match k with Sorted c -> cmpsZ c | _ -> cmpZ) in
         let h = ref (empty_heap : z heap) in
         let tainted : (int, bool) Hashtbl.t = Hashtbl.create 16 in
         let nobj = ref 0 in
@@ -90,14 +94,14 @@ let () =
         (* compare one object's yielded sequence *)
         let cmp_obj op r (go : int list) (model : int list) =
           let k = kind_of r in
-          let exact = (k = Sorted) || (k = Stable && not (is_tainted r)) in
+          let exact = is_sorted k || (k = Stable && not (is_tainted r)) in
           let so l = List.sort compare l in
           if so go <> so model then
             mism "api" (Printf.sprintf "%s: object %d holds {%s} in the implementation, {%s} in the proved model" op r (show_list go) (show_list model))
           else if go <> model then begin
             if exact then
               mism "api" (Printf.sprintf "%s: object %d (%s) iterates %s in the implementation, %s in the proved model (order is part of the property)"
-                op r (if k = Sorted then "sorted" else "stable") (show_list go) (show_list model))
+                op r (if is_sorted k then "sorted" else "stable") (show_list go) (show_list model))
             else if det then
               mism "fidelity" (Printf.sprintf "%s: object %d iterates %s in the implementation, %s in the model (same set)" op r (show_list go) (show_list model))
           end in
@@ -138,6 +142,7 @@ let () =
             (* object references must denote live objects (a shrunk case may have lost a creating op) *)
             let nrefs = (match toks.(0) with
               | "new" | "snap" | "alias" -> 0
+              | "sos" -> Array.length toks - 1
               | "eq" | "sub" | "sup" -> 2
               | "uni" | "int" | "dif" -> Array.length toks - 1
               | _ -> 1) in
@@ -146,8 +151,14 @@ let () =
             done;
             match toks.(0) with
             | "new" ->
-              let k = (match toks.(1) with "u" -> Unordered | "s" -> Stable | _ -> Sorted) in
-              Hashtbl.replace by_kind toks.(1) (1 + try Hashtbl.find by_kind toks.(1) with Not_found -> 0);
+              let k = (match toks.(1) with
+                | "u" -> Unordered | "s" -> Stable
+                | "o" -> Sorted (nat_of_int (dir_index dir))
+                | t when String.length t > 2 && String.sub t 0 2 = "o:" ->
+                  if dir_index (String.sub t 2 (String.length t - 2)) <> dir_index dir then incr st_mixed;
+                  Sorted (nat_of_int (dir_index (String.sub t 2 (String.length t - 2))))
+                | _ -> failwith "bad kind") in
+              Hashtbl.replace by_kind (String.sub toks.(1) 0 1) (1 + try Hashtbl.find by_kind toks.(1) with Not_found -> 0);
               let (_, h') = h_new zero !h k in h := h'; created !nobj false; simple "-"
             | "add" -> track (arg 1) (fun () -> h := ok (h_add zero grow eqb cmp !h (nat_of_int (arg 1)) (zargs 2))); simple "-"
             | "rem" -> track (arg 1) (fun () -> h := ok (h_remove zero grow eqb cmp !h (nat_of_int (arg 1)) (zargs 2))); simple "-"
@@ -227,6 +238,14 @@ let () =
               let sh = shared_arrays !h in
               let expect = if sh = [] then "none" else String.concat "," (List.map (fun (a, b) -> Printf.sprintf "%d-%d" (int_of_nat a) (int_of_nat b)) sh) in
               simple expect
+            | "sos" ->
+              (* New[Set[int]](func(a, b) { return a.Equal(b) }).Add(objects...): which arguments are kept *)
+              incr st_sos;
+              let vals = List.map (fun r -> let r = int_of_nat r in { vk = kind_of r; vm = ok (h_members !h (nat_of_int r)) }) (rargs 1) in
+              let kept = ref [] and pos = ref [] in
+              List.iteri (fun i v ->
+                if not (List.exists (fun m -> set_eq eqb cmp m v) !kept) then (kept := !kept @ [v]; pos := !pos @ [i])) vals;
+              simple (show_list !pos)
             | "pow" ->
               incr st_pow;
               let r = arg 1 in
@@ -259,7 +278,7 @@ let () =
                     mism "api" (Printf.sprintf "%s: a member of the implementation's result is not a subset of the operand: %s" op res)
                   else if go_c <> canon subs_m then
                     mism "api" (Printf.sprintf "%s: implementation %s, proved model %s (different families)" op res model_s)
-                  else if k = Sorted && List.exists (fun s -> s <> List.sort (fun a b -> int_of_z (cmp (z_of_int a) (z_of_int b))) s) go then
+                  else if is_sorted k && List.exists (fun s -> s <> List.sort (fun a b -> int_of_z ((cmp_of k) (z_of_int a) (z_of_int b))) s) go then
                     mism "api" (Printf.sprintf "%s: a sorted subset does not iterate in comparator order: %s" op res)
                   else if det && res <> model_s then
                     mism "fidelity" (Printf.sprintf "%s: implementation %s, model %s (same family, different order)" op res model_s)
@@ -331,6 +350,6 @@ let () =
   Printf.printf "STAT inplace_appends=%d\nSTAT reallocating_appends=%d\nSTAT inplace_shift_removes=%d\nSTAT algebra_calls=%d\n" !st_inplace !st_grow !st_shift !st_algebra;
   Printf.printf "STAT powerset_calls=%d\nSTAT partitions_calls=%d\nSTAT max_set_size=%d\nSTAT max_powerset_n=%d\nSTAT max_partitions_n=%d\n" !st_pow !st_parts !st_maxsize !st_maxpow !st_maxparts;
   Printf.printf "STAT free_shuffle_cases=%d\nSTAT reverse_comparator_cases=%d\nSTAT alias_checks=%d\nSTAT objects_reread=%d\n" !st_free !st_rev !st_alias_checks !st_snap_objs;
-  Printf.printf "STAT magnitude_comparator_cases=%d\n" !st_mag;
+  Printf.printf "STAT magnitude_comparator_cases=%d\nSTAT sorted_sets_with_own_comparator=%d\nSTAT set_of_sets_dedup_calls=%d\n" !st_mag !st_mixed !st_sos;
   Hashtbl.iter (fun k v -> Printf.printf "STAT new_%s=%d\n" k v) by_kind;
   Hashtbl.iter (fun k v -> Printf.printf "STAT op_%s=%d\n" k v) opmix
